@@ -32,7 +32,8 @@ ASSUMPTIONS = [
     "compared for *consistency*: every option subset must abort alike",
 ]
 BOUND = {
-    "quick": "5 structures x 6 force fields x 7 ffout values x 32 subsets; "
+    "quick": "5 structures x 6 force fields x 4 ffout values (none, AMBER, "
+    "CHARMM, one seed-chosen; thorough: all 7) x 32 subsets; "
     "drop-water x 4 structures x 6 force fields x 2 option sets; neutral "
     "termini: 20 residue types x 4 flag subsets x 2 layouts",
     "thorough": "same plus --noopt/--nodebump variants of the base run",
@@ -162,7 +163,7 @@ def run_lattice(case):
             # chain column: present iff --keep-chain
             kc = "--keep-chain" in sub
             chains = {a["chain"] for a in atoms}
-            if not kc and chains != {""}:
+            if atoms and not kc and chains != {""}:
                 sig = "C09/lattice/chain-column-without-keep-chain"
                 if sig not in seen:
                     seen.add(sig)
@@ -233,7 +234,7 @@ def run_neutral(case):
         tag = "+".join(flags)
         if not r.ok:
             res["violations"].append({
-                "sig": f"C09/neutral/run-fails/{tag}",
+                "sig": f"C09/neutral/run-fails/{tag}/{x}",
                 "detail": {"x": x, "exc": r.exc}})
             continue
         _num, atoms_ = numbers(r, [])
@@ -277,9 +278,15 @@ def run_case(case):
 
 def enumerate_cases(tier, seed):
     cases = []
+    ffouts = [None] + corpus.FFS
+    if tier == "quick":
+        rest = ["PARSE", "TYL06", "PEOEPB", "SWANSON"]
+        ffouts = [None, "AMBER", "CHARMM", rest[seed % len(rest)]]
     for s in STRUCTURES:
         for ff in corpus.FFS:
-            for ffout in [None] + corpus.FFS:
+            if s == "strand" and ff not in corpus.NUCLEIC_FFS:
+                continue  # no nucleic-acid parameters: nothing to compare
+            for ffout in ffouts:
                 cases.append({"mode": "lattice", "structure": s, "ff": ff,
                               "ffout": ffout})
     for ff in corpus.FFS:
